@@ -147,7 +147,7 @@ fn impl_apply_n<const N: usize>(d: &DDiff, t: &MMappings, ns: &S, desync: &mut V
 	Ok(r.map(|m| from_quill(&m, desync)))
 }
 fn impl_apply(d: &DDiff, t: &MMappings, ns: &S, desync: &mut Vec<String>) -> Result<Option<MMappings>, String> {
-	match t.ns.len() { 2 => impl_apply_n::<2>(d, t, ns, desync), 3 => impl_apply_n::<3>(d, t, ns, desync), n => Err(format!("unsupported namespace count {n}")) }
+	match t.ns.len() { 1 => impl_apply_n::<1>(d, t, ns, desync), 2 => impl_apply_n::<2>(d, t, ns, desync), 3 => impl_apply_n::<3>(d, t, ns, desync), 4 => impl_apply_n::<4>(d, t, ns, desync), n => Err(format!("unsupported namespace count {n}")) }
 }
 fn impl_diff(a: &MMappings, b: &MMappings) -> Result<Option<DDiff>, String> {
 	let qa: Mappings<2, NsAny> = to_quill(a).map_err(|e| format!("a not representable: {e}"))?;
@@ -218,22 +218,27 @@ pub fn print_tinydiff(d: &DDiff) -> S {
 fn utf8(s: &S) -> Option<Vec<u8>> { s_string(s).map(|x| x.into_bytes()) }
 
 /// what the text form can carry of a diff (= Gallina `norm`): Edit(a,a) is no action, an empty string is an absent cell
-fn norm_act(a: &Act) -> Act {
-	let ne = |s: &S| if s.is_empty() { None } else { Some(s.clone()) };
+/// `empty_absent` = false: only the Edit(a,a) = None rule (what F4 is NOT about)
+fn norm_act_with(a: &Act, empty_absent: bool) -> Act {
+	let ne = |s: &S| if empty_absent && s.is_empty() { None } else { Some(s.clone()) };
 	let ft = |a: Option<S>, b: Option<S>| match (a, b) { (None, None) => Act::None, (None, Some(b)) => Act::Add(b), (Some(a), None) => Act::Rem(a), (Some(a), Some(b)) => Act::Edit(a, b) };
 	match a {
 		Act::None => Act::None, Act::Add(b) => ft(None, ne(b)), Act::Rem(x) => ft(ne(x), None),
 		Act::Edit(x, y) => if x == y { Act::None } else { ft(ne(x), ne(y)) },
 	}
 }
-fn norm(d: &DDiff) -> DDiff {
-	DDiff { info: d.info.clone(), doc: norm_act(&d.doc), classes: d.classes.iter().map(|c| DClass {
-		name: c.name.clone(), info: norm_act(&c.info), doc: norm_act(&c.doc),
-		fields: c.fields.iter().map(|f| DField { name: f.name.clone(), desc: f.desc.clone(), info: norm_act(&f.info), doc: norm_act(&f.doc) }).collect(),
-		methods: c.methods.iter().map(|m| DMeth { name: m.name.clone(), desc: m.desc.clone(), info: norm_act(&m.info), doc: norm_act(&m.doc),
-			params: m.params.iter().map(|p| DParam { index: p.index, info: norm_act(&p.info), doc: norm_act(&p.doc) }).collect() }).collect(),
+fn norm(d: &DDiff) -> DDiff { norm_with(d, true) }
+fn norm_with(d: &DDiff, ea: bool) -> DDiff {
+	let na = |a: &Act| norm_act_with(a, ea);
+	DDiff { info: d.info.clone(), doc: na(&d.doc), classes: d.classes.iter().map(|c| DClass {
+		name: c.name.clone(), info: na(&c.info), doc: na(&c.doc),
+		fields: c.fields.iter().map(|f| DField { name: f.name.clone(), desc: f.desc.clone(), info: na(&f.info), doc: na(&f.doc) }).collect(),
+		methods: c.methods.iter().map(|m| DMeth { name: m.name.clone(), desc: m.desc.clone(), info: na(&m.info), doc: na(&m.doc),
+			params: m.params.iter().map(|p| DParam { index: p.index, info: na(&p.info), doc: na(&p.doc) }).collect() }).collect(),
 	}).collect() }
 }
+/// order-free equality of two results (Ok up to the order of every map, or both Err)
+fn same_res(x: &Option<MMappings>, y: &Option<MMappings>) -> bool { match (x, y) { (Some(x), Some(y)) => x.equiv(y), (None, None) => true, _ => false } }
 
 // ---------- the reference: "what the diff says", written directly over sorted maps ----------
 fn ref_option(d: &Act, t: &Option<S>) -> Option<Option<S>> {
@@ -331,8 +336,16 @@ fn f3_expected(a: &MMappings, b: &MMappings) -> MMappings {
 }
 
 // ---------- generators ----------
-const DOCS2: [&str; 10] = ["changed", "tab\there", "back\\slash", "back\\n", "cr\rmid", "trailing cr\r", "new\nline", "\\", "ü\u{1F600}", "x y"];
-const TNAMES: [&str; 8] = ["Renamed", "net/minecraft/Renamed", "r", "m_99", "f_99", "p_99", "Zed", "other"];
+/// comments: escapes, and (second and third row) comments that are blank — white space only, of every kind
+/// `str::trim` removes that a .tinydiff cell can carry (no TAB / LF / CR) — or have leading / trailing / inner blanks
+const DOCS2: [&str; 28] = ["changed", "tab\there", "back\\slash", "back\\n", "cr\rmid", "trailing cr\r", "new\nline", "\\", "ü\u{1F600}", "x y",
+	" ", "  ", "\u{a0}", "\u{2003}", "\u{3000}", " \u{a0} ", "\u{c}", "\u{85}", "\u{2028}",
+	" lead", "trail ", " both ", "in  ner", "\u{a0}nb", "nb\u{a0}", " \\", "\\ ", "\n "];
+/// only the blank ones and their neighbours (exhaustive streams)
+const BLANKS: [&str; 7] = ["", " ", "  ", "\u{a0}", "\u{3000}\u{2003}", " x", "x "];
+/// second-namespace names: valid per duke (an unqualified name may be blank or contain blanks), the first three also as class names
+const TNAMES: [&str; 16] = ["Renamed", "net/minecraft/Renamed", "r", "m_99", "f_99", "p_99", "Zed", "other", " ", "  ", "in ner", "trail ", " lead", "\u{a0}", "x\u{3000}", "\u{2003}y"];
+const CNAMES: [&str; 8] = ["Renamed", "net/minecraft/Renamed", "r", " ", "pkg /In ner", "trail ", " /\u{a0}", "net/ lead"];
 
 fn unsrc_params(m: &mut MMappings) { for c in &mut m.classes { for me in &mut c.methods { for p in &mut me.params { p.names[0] = None; } } } }
 
@@ -350,10 +363,16 @@ fn edit_name(rng: &mut Rng, row: &mut NamesRow, cfg: &EditCfg, pool: &[&str]) {
 /// a random descendant of `m`: entries dropped, renamed in the second namespace, comments changed, entries added
 fn edit(rng: &mut Rng, m: &MMappings, cfg: &EditCfg, tag: &str) -> MMappings {
 	let mut out = m.clone();
-	if rng.below(100) < cfg.doc / 4 { out.doc = match rng.below(2) { 0 => None, _ => Some(cps_str("top comment")) }; }
+	// the comment of the mapping set itself: absent / one fixed value / anything from the pool, independently on both sides
+	if rng.below(100) < cfg.doc / 2 { out.doc = match rng.below(4) { 0 => None, 1 => Some(cps_str("top comment")), _ => Some(cps_str(*rng.pick(&DOCS2[..]))) }; }
+	// A and B add entries independently: under their own key (tag) or under a key the other side may add as well (`s`),
+	// then with another name / comment (an entry present on both sides and in neither's ancestor)
+	let mut r3 = rng.fork(13);
+	let mut key_tag = move || if r3.chance(2, 5) { "s" } else { tag };
+	let sfx = |rng: &mut Rng, base: &str| cps_str(&format!("{base}{}", if rng.chance(1, 2) { tag } else { "" }));
 	out.classes.retain(|_| rng.below(100) >= cfg.drop);
 	for c in &mut out.classes {
-		edit_name(rng, &mut c.names, cfg, &TNAMES[..3]);
+		edit_name(rng, &mut c.names, cfg, &CNAMES[..]);
 		edit_doc(rng, &mut c.doc, cfg);
 		c.fields.retain(|_| rng.below(100) >= cfg.drop);
 		c.methods.retain(|_| rng.below(100) >= cfg.drop);
@@ -366,30 +385,30 @@ fn edit(rng: &mut Rng, m: &MMappings, cfg: &EditCfg, tag: &str) -> MMappings {
 				let index = rng.below(8) as u64;
 				if !me.params.iter().any(|p| p.index == index) {
 					let src = if rng.below(100) < cfg.param_src { Some(cps_str("q")) } else { None };
-					let mut p = MParam { index, names: vec![src, Some(cps_str("added_p"))], doc: None };
+					let mut p = MParam { index, names: vec![src, Some(sfx(rng, "added_p"))], doc: None };
 					edit_doc(rng, &mut p.doc, cfg);
 					me.params.push(p);
 				}
 			}
 		}
 		if rng.below(100) < cfg.add {
-			let name = cps_str(&format!("f_{tag}{}", rng.below(3)));
+			let name = cps_str(&format!("f_{}{}", key_tag(), rng.below(3)));
 			let desc = cps_str(*rng.pick(&["I", "J", "La;"][..]));
 			if !c.fields.iter().any(|f| f.names[0].as_ref() == Some(&name) && f.desc == desc) {
-				let mut f = MField { desc, names: vec![Some(name), Some(cps_str("addedField"))], doc: None };
+				let mut f = MField { desc, names: vec![Some(name), Some(sfx(rng, "addedField"))], doc: None };
 				edit_doc(rng, &mut f.doc, cfg);
 				c.fields.push(f);
 			}
 		}
 		if rng.below(100) < cfg.add {
-			let name = cps_str(&format!("m_{tag}{}", rng.below(3)));
+			let name = cps_str(&format!("m_{}{}", key_tag(), rng.below(3)));
 			let desc = cps_str(*rng.pick(&["()V", "(I)V", "(La;I)La;"][..]));
 			if !c.methods.iter().any(|f| f.names[0].as_ref() == Some(&name) && f.desc == desc) {
-				let mut me = MMeth { desc, names: vec![Some(name), Some(cps_str("addedMethod"))], doc: None, params: vec![] };
+				let mut me = MMeth { desc, names: vec![Some(name), Some(sfx(rng, "addedMethod"))], doc: None, params: vec![] };
 				edit_doc(rng, &mut me.doc, cfg);
 				if rng.chance(1, 2) {
 					let src = if rng.below(100) < cfg.param_src { Some(cps_str("q")) } else { None };
-					me.params.push(MParam { index: rng.below(3) as u64, names: vec![src, Some(cps_str("ap"))], doc: None });
+					me.params.push(MParam { index: rng.below(3) as u64, names: vec![src, Some(sfx(rng, "ap"))], doc: None });
 				}
 				c.methods.push(me);
 			}
@@ -397,15 +416,15 @@ fn edit(rng: &mut Rng, m: &MMappings, cfg: &EditCfg, tag: &str) -> MMappings {
 	}
 	for i in 0..2 {
 		if rng.below(100) < cfg.add {
-			let name = cps_str(&format!("added/{tag}{i}"));
+			let name = cps_str(&format!("added/{}{i}", key_tag()));
 			if !out.classes.iter().any(|c| c.names[0].as_ref() == Some(&name)) {
 				let mut c = MClass { names: vec![Some(name), Some(cps_str(&format!("named/Added{tag}{i}")))], doc: None, fields: vec![], methods: vec![] };
 				edit_doc(rng, &mut c.doc, cfg);
-				if rng.chance(1, 2) { c.fields.push(MField { desc: cps_str("I"), names: vec![Some(cps_str("x")), Some(cps_str("ex"))], doc: Some(cps_str("doc of x")) }); }
+				if rng.chance(1, 2) { c.fields.push(MField { desc: cps_str("I"), names: vec![Some(cps_str("x")), Some(sfx(rng, "ex"))], doc: if rng.chance(1, 2) { Some(cps_str("doc of x")) } else { Some(cps_str(tag)) } }); }
 				if rng.chance(1, 2) {
 					let src = if rng.below(100) < cfg.param_src { Some(cps_str("q")) } else { None };
 					c.methods.push(MMeth { desc: cps_str("(I)V"), names: vec![Some(cps_str("y")), Some(cps_str("why"))], doc: None,
-						params: vec![MParam { index: 1, names: vec![src, Some(cps_str("arg"))], doc: Some(cps_str("doc of arg")) }] });
+						params: vec![MParam { index: 1, names: vec![src, Some(sfx(rng, "arg"))], doc: if rng.chance(1, 2) { Some(cps_str("doc of arg")) } else { None } }] });
 				}
 				out.classes.push(c);
 			}
@@ -444,7 +463,7 @@ fn gen_diff_for(rng: &mut Rng, t: &MMappings, tns: usize, fault: usize) -> DDiff
 	let incl = 70;
 	for c in &t.classes {
 		if rng.below(100) >= incl { continue; }
-		let mut dc = DClass { name: c.names[0].clone().unwrap(), info: gen_act_for(rng, &c.names[tns], fault, &TNAMES[..3], 40), doc: gen_doc_act(rng, &c.doc, fault), fields: vec![], methods: vec![] };
+		let mut dc = DClass { name: c.names[0].clone().unwrap(), info: gen_act_for(rng, &c.names[tns], fault, &CNAMES[..], 40), doc: gen_doc_act(rng, &c.doc, fault), fields: vec![], methods: vec![] };
 		for f in &c.fields {
 			if rng.below(100) >= incl { continue; }
 			dc.fields.push(DField { name: f.names[0].clone().unwrap(), desc: f.desc.clone(), info: gen_act_for(rng, &f.names[tns], fault, &TNAMES[2..], 30), doc: gen_doc_act(rng, &f.doc, fault) });
@@ -500,8 +519,7 @@ impl<'a> Run<'a> {
 				if tns == 0 { self.r.count("apply_first_namespace"); }
 				if !desync.is_empty() { self.r.violation(format!("apply_to produced a tree whose map keys differ from its entries: {}", desync[0]), format!("stream {stream}\n{}{}", show_diff(d), show_mappings(t))); }
 				let want = ref_apply(d, t, tns);
-				let same = match (&got, &want) { (Some(g), Some(w)) => g.equiv(w), (None, None) => true, _ => false };
-				if !same {
+				if !same_res(&got, &want) {
 					let what = match (&got, &want) {
 						(Some(_), None) => "apply_to returned a result although the diff is inconsistent with the target (a stated old value does not match, or an addition collides)",
 						(None, Some(_)) => "apply_to refused a diff that is consistent with the target",
@@ -531,7 +549,9 @@ impl<'a> Run<'a> {
 		let h_f3 = f3_expected(a, b) != *b;
 		let h_txt = h_inv && textual_m(a) && textual_m(b) && a.doc == b.doc;
 		let h_f4 = has_empty_comment(a) || has_empty_comment(b);
-		let ghy = glist([h_inv, h_f3, h_txt, h_f4].into_iter().map(gbool));
+		let h_txt_top = h_inv && textual_m(a) && textual_m(b);
+		let ghy = glist([h_inv, h_f3, h_txt, h_f4, h_txt_top].into_iter().map(gbool));
+		if h_txt_top && !h_txt && !h_f3 && !h_f4 { self.r.count("pair_in_hypotheses_of_text_theorem_modulo_top_comment"); }
 		if h_inv && !h_f3 { self.r.count("pair_in_hypotheses_of_inverse_theorem"); }
 		if h_txt && !h_f3 && !h_f4 { self.r.count("pair_in_hypotheses_of_text_theorem"); }
 		let emit_pair = |r: &mut Report, rr: Option<&Option<MMappings>>| {
@@ -554,14 +574,19 @@ impl<'a> Run<'a> {
 			if f3 { self.r.count("inverse_known_F3"); self.r.known("F3 a parameter's first-namespace name is not carried by a diff".into()); }
 			else { self.r.violation("apply(diff(A,B),A) is not B".into(), replay(&format!("diff(A,B):\n{}apply(diff(A,B),A):\n{}", show_diff(&d), sh_res(&got)))); }
 		}
-		// through the text form
+		// through the text form.  The .tinydiff format has no line for the comment of the mapping set itself
+		// (tiny_v2_diff::read never sets MappingsDiff::javadoc; C04_read_no_top), so that one action cannot travel:
+		// everything else must arrive, and the top-level comment stays A's (C04_text_inverse_modulo_top; stated
+		// in props/c04.py).  With equal top-level comments this is the literal law.
 		let top_changes = match &d.doc { Act::None => false, Act::Edit(x, y) => x != y, _ => true };
-		if top_changes { self.r.count("pair_top_comment_differs_no_text_form"); emit_pair(self.r, None); return; }
+		if top_changes { self.r.count("pair_top_comment_differs_text_carries_the_rest"); }
 		let txt = print_tinydiff(&d);
 		let Some(bytes) = utf8(&txt) else { emit_pair(self.r, None); return; };
 		let d2 = match self.tmp.read(&bytes) { Ok(x) => x, Err(p) => { self.r.violation(format!("tiny_v2_diff::read_file panicked: {p}"), replay(&format!("text:\n{}", show(&txt)))); emit_pair(self.r, None); return; } };
 		let mut nd = norm(&d); nd.doc = Act::None;
-		if d2.as_ref() != Some(&nd) {
+		// the property is about the content of the diff, not the order of its entries: compared order-free
+		// (the exact order is compared in the correspondence, CRead / CPair)
+		if d2.as_ref().map(|x| x.canon()) != Some(nd.canon()) {
 			self.r.violation("reading the printed diff does not give back the diff (up to Edit(a,a) = None, empty = absent)".into(), replay(&format!("diff:\n{}text:\n{}\nread back:\n{}", show_diff(&d), show(&txt), d2.as_ref().map(show_diff).unwrap_or("Err\n".into()))));
 			emit_pair(self.r, None);
 			return;
@@ -569,11 +594,18 @@ impl<'a> Run<'a> {
 		let d2 = d2.unwrap();
 		let mut desync = vec![];
 		let got2 = match impl_apply(&d2, a, &nsname, &mut desync) { Ok(g) => g, Err(p) => { self.r.violation(format!("apply_to panicked: {p}"), replay(&show_diff(&d2))); emit_pair(self.r, None); return; } };
-		let same = match (&got, &got2) { (Some(x), Some(y)) => x.equiv(y), (None, None) => true, _ => false };
-		if same { self.r.count("text_inverse_ok"); } else if h_f4 {
-			self.r.count("text_inverse_known_F4"); self.r.known("F4 an empty comment is an absent cell in the .tinydiff text form".into());
-		} else {
-			self.r.violation("applying the diff read back from its text form differs from applying the diff itself".into(), replay(&format!("diff:\n{}text:\n{}\ndirect:\n{}through text:\n{}", show_diff(&d), show(&txt), sh_res(&got), sh_res(&got2))));
+		let want2 = got.clone().map(|mut g| { if top_changes { g.doc = a.doc.clone(); } g });
+		if same_res(&want2, &got2) { self.r.count(if top_changes { "text_inverse_ok_except_top_comment" } else { "text_inverse_ok" }); } else {
+			// F4, as narrow as the defect: (i) A or B has an empty comment (f4_class), (ii) the empty = absent rule of the
+			// text form changed a comment action of this diff (Edit(a,a) = None alone is NOT F4), (iii) what came out is
+			// exactly what the diff that was read back says (reference apply), with nothing else different
+			let no_top = |mut x: DDiff| { x.doc = Act::None; x };
+			let f4_touched = no_top(norm_with(&d, true)) != no_top(norm_with(&d, false));
+			let f4 = h_f4 && f4_touched && same_res(&got2, &ref_apply(&d2, a, 1));
+			if f4 { self.r.count("text_inverse_known_F4"); self.r.known("F4 an empty comment is an absent cell in the .tinydiff text form".into()); }
+			else {
+				self.r.violation("applying the diff read back from its text form differs from applying the diff itself".into(), replay(&format!("diff:\n{}text:\n{}\ndirect{}:\n{}through text:\n{}", show_diff(&d), show(&txt), if top_changes { " (the top-level comment cannot travel: expected A's)" } else { "" }, sh_res(&want2), sh_res(&got2))));
+			}
 		}
 		emit_pair(self.r, Some(&got2));
 	}
@@ -593,7 +625,7 @@ impl<'a> Run<'a> {
 		self.r.case(stream, format!("CPrint {} {}", g_diff(d), gstr(&txt)));
 		let got = self.read_case(stream, &txt, d.size() > 0);
 		let mut nd = norm(d); nd.info = Act::None; nd.doc = Act::None;
-		if textual(d) && got.as_ref() != Some(&nd) {
+		if textual(d) && got.as_ref().map(|x| x.canon()) != Some(nd.canon()) {
 			self.r.violation("reading the printed diff does not give back the diff (up to Edit(a,a) = None, empty = absent)".into(), format!("diff:\n{}text:\n{}\nread back:\n{}", show_diff(d), show(&txt), got.as_ref().map(show_diff).unwrap_or("Err\n".into())));
 		}
 	}
@@ -671,17 +703,19 @@ fn one_entry_diff(acts: [Option<Act>; 4], docs: [Act; 5]) -> DDiff {
 
 pub fn run(ctx: &Ctx) -> anyhow::Result<Report> {
 	let mut r = Report::new("C04", "C04.Run");
-	r.shard_size = 100;
+	r.shard_size = 200;
 	let mut rng = Rng::new(ctx.seed);
-	r.rule = "table: every combination of the 4 actions x target entry {absent, present without name, present with the stated old name, present with another name} at class/field/method/parameter level and the 4 actions x comment {absent, stated old value, other value} at mappings/class/field/method/parameter level on a single-entry tree, each also below an added and below a removed parent; pairs: (A,B) derived from a generated two-namespace ancestor by independent random edits (drop, rename, comment change, add at every level) so that only-A / only-B / both-equal / both-different entries occur at every level, with separate streams violating each hypothesis (absent second-namespace names, first-namespace parameter names, empty comments, differing namespaces); arbitrary: random diffs aimed at a generated target (2 and 3 namespaces, every target namespace incl. the first and an unknown one), consistent or with injected faults; text: printed diffs, the repository's four .tinydiff fixtures, and mutations of both. Oracle on the implementation: apply(diff(A,B),A) equivalent to B, also through print/read_file; result of apply_to equals an independent map-based reference and Err exactly when the reference finds an inconsistency; diff is Err exactly when a needed name is absent; read_file(print(d)) = norm(d). Non-trivial: the call returned Ok on a non-empty tree; distinct by the full input. For every pair the harness also evaluates the theorems' hypotheses (inverse_hyps_b, f3_class, text_hyps_b, f4_class) and Coq evaluates the Gallina booleans on the same pair (part of CPair); inside the hypotheses a failing oracle is always a violation, the known-finding classifiers apply only when f3_class / f4_class is true.".into();
-	r.notes.push("F3 classifier: apply(diff(A,B),A) equals B with every parameter's first-namespace name replaced by A's at the same path (or absent), and B is not of that form; F4 classifier: the diff read back equals norm(diff), direct and through-text results differ, and A or B has an empty comment".into());
+	r.rule = "table: every combination of the 4 actions x target entry {absent, present without name, present with the stated old name, present with another name} at class/field/method/parameter level and the 4 actions x comment {absent, stated old value, other value} at mappings/class/field/method/parameter level on a single-entry tree, each also below an added and below a removed parent; pairs: (A,B) derived from a generated two-namespace ancestor by independent random edits (drop, rename, comment change incl. the comment of the mapping set itself, add at every level - also the same new key on both sides with different names/comments) so that only-A / only-B / both-equal / both-different entries occur at every level; comments and second-namespace names are drawn from pools that contain white-space-only values (space, two spaces, NBSP, EM SPACE, IDEOGRAPHIC SPACE, FF, NEL, LINE SEPARATOR) and values with leading / trailing / inner blanks; pair-blank: single-entry pairs with absent / empty / blank / blank-edged comment (five levels) or name (four levels) on either side, text-blank: single-entry diffs with such old / new values in every comment and name action through print / read_file; with separate streams violating each hypothesis (absent second-namespace names, first-namespace parameter names, empty comments, differing namespaces); arbitrary: random diffs aimed at a generated target (1, 2, 3 and 4 namespaces, every target namespace incl. the first and an unknown one), consistent or with injected faults; text: printed diffs, the repository's four .tinydiff fixtures, and mutations of both. Oracle on the implementation: apply(diff(A,B),A) equivalent to B, also through print/read_file; result of apply_to equals an independent map-based reference and Err exactly when the reference finds an inconsistency; diff is Err exactly when a needed name is absent; read_file(print(d)) = norm(d). Every oracle comparison is up to the order of every map (results and diffs are canonicalised); the exact IndexMap order is compared only in the correspondence (CApply / CPair / CRead), where the model follows the code's swap_remove. A pair whose top-level comments differ also goes through the text form: everything but that comment must arrive (the format has no line for it). Non-trivial: the call returned Ok on a non-empty tree; distinct by the full input. For every pair the harness also evaluates the theorems' hypotheses (inverse_hyps_b, f3_class, text_hyps_b, f4_class, text_hyps_top_b) and Coq evaluates the Gallina booleans on the same pair (part of CPair); inside the hypotheses a failing oracle is always a violation, the known-finding classifiers apply only when f3_class / f4_class is true.".into();
+	r.notes.push("F3 classifier: apply(diff(A,B),A) equals B with every parameter's first-namespace name replaced by A's at the same path (or absent), and B is not of that form; F4 classifier: A or B has an empty comment, the diff read back equals norm(diff), the empty = absent rule (not merely Edit(a,a) = None) changed a comment action of this diff below the top level, and the through-text result is exactly the reference application of the diff that was read back; anything else on that stream is a violation".into());
+	r.notes.push("the comment of the mapping set itself has no line in the .tinydiff format (tiny_v2_diff::read returns javadoc = None always: C04_read_no_top): pairs with different top-level comments are covered in memory (inverse law, incl. seed class 'diff drops the top-level comment action') and, through the text, up to that comment (C04_text_inverse_modulo_top; necessity of equal top-level comments: C04_text_inverse_needs_same_top)".into());
 	{
 	let mut run = Run { r: &mut r, tmp: Tmp::new() };
 	let named_ns = cps_str("named");
 
 	// 0. apply_diff_option: the full 4 x 3 table
-	for d in [Act::None, Act::Add(cps_str("b")), Act::Rem(cps_str("a")), Act::Edit(cps_str("a"), cps_str("b")), Act::Edit(cps_str("a"), cps_str("a")), Act::Add(vec![])] {
-		for t in [None, Some(cps_str("a")), Some(cps_str("x")), Some(vec![])] {
+	for d in [Act::None, Act::Add(cps_str("b")), Act::Rem(cps_str("a")), Act::Edit(cps_str("a"), cps_str("b")), Act::Edit(cps_str("a"), cps_str("a")), Act::Add(vec![]),
+		Act::Add(cps_str(" ")), Act::Rem(cps_str(" ")), Act::Edit(cps_str(" "), cps_str("b")), Act::Edit(cps_str("a"), cps_str(" ")), Act::Rem(vec![]), Act::Edit(vec![], cps_str(" "))] {
+		for t in [None, Some(cps_str("a")), Some(cps_str("x")), Some(vec![]), Some(cps_str(" "))] {
 			let qd = act_str(&d).unwrap(); let qt = t.as_ref().map(|s| s_string(s).unwrap());
 			let got = guarded(move || quill::apply_diff_option(&qd, qt).ok());
 			match got {
@@ -730,15 +764,18 @@ pub fn run(ctx: &Ctx) -> anyhow::Result<Report> {
 			}
 		}
 	}
-	let dacts = [Act::None, Act::Add(cps_str("b")), Act::Rem(cps_str("a")), Act::Edit(cps_str("a"), cps_str("b")), Act::Edit(cps_str("a"), cps_str("a"))];
+	let dacts = [Act::None, Act::Add(cps_str("b")), Act::Rem(cps_str("a")), Act::Edit(cps_str("a"), cps_str("b")), Act::Edit(cps_str("a"), cps_str("a")),
+		Act::Add(cps_str(" ")), Act::Rem(cps_str(" ")), Act::Edit(cps_str(" "), cps_str("b")), Act::Edit(cps_str("a"), cps_str(" ")), Act::Edit(cps_str(" "), cps_str(" ")), Act::Edit(cps_str(" "), cps_str("  "))];
 	for level in 0..5 {
 		for act in &dacts {
-			for st in [None, Some("a"), Some("x"), Some("")] {
+			for st in [None, Some("a"), Some("x"), Some(""), Some(" "), Some("  ")] {
 				let mut tdocs = [None; 5]; tdocs[level] = st;
 				let mut ddocs = [Act::None, Act::None, Act::None, Act::None, Act::None]; ddocs[level] = act.clone();
 				let t = one_entry_target(Some(Some("pc")), Some(Some("pf")), Some(Some("pm")), Some(Some("pp")), tdocs);
 				let d = one_entry_diff([Some(Act::None), Some(Act::None), Some(Act::None), Some(Act::None)], ddocs);
 				run.apply_case("table-comment", &d, &t, &named_ns, true);
+				// the same comment action through print / read_file (the mappings-level one has no text form)
+				if level > 0 && st.is_none() { run.print_case("table-comment-text", &d); }
 				table += 1;
 			}
 		}
@@ -780,6 +817,69 @@ pub fn run(ctx: &Ctx) -> anyhow::Result<Report> {
 		run.pair_case("known-witness", &f4_b, &f4_a, true);
 	}
 
+	// 1b. blank values through every path.  Single-entry pairs whose comment (each of the five levels) or
+	// second-namespace name (each of the four levels) is absent / empty / white space only / blank-edged on either
+	// side: diff, apply, print, read_file, apply.  Single-entry diffs with such values as old / new value of a comment
+	// or name action: read_file(print d) = norm d.
+	{
+		let full = |x: [Option<&str>; 5]| one_entry_target(Some(Some("pc")), Some(Some("pf")), Some(Some("pm")), Some(Some("pp")), x);
+		let vals: Vec<Option<&str>> = std::iter::once(None).chain(BLANKS.iter().map(|s| Some(*s))).collect();
+		let mut n = 0u64;
+		for level in 0..5 {
+			for (i, old) in vals.iter().enumerate() {
+				for (j, new) in vals.iter().enumerate() {
+					// quick tier: the full square for class and parameter comments, a third of it elsewhere
+					if !ctx.thorough && level != 1 && level != 4 && (i + 2 * j + level) % 3 != 0 { continue; }
+					let mut da = [None; 5]; da[level] = *old;
+					let mut db = [None; 5]; db[level] = *new;
+					run.pair_case("pair-blank", &full(da), &full(db), true);
+					n += 1;
+				}
+			}
+		}
+		let nvals = [" ", "  ", "x ", " x", "\u{a0}", "x"];
+		for level in 0..4 {
+			for (i, old) in nvals.iter().enumerate() {
+				for (j, new) in nvals.iter().enumerate() {
+					if !ctx.thorough && (i + j + level) % 2 != 0 { continue; }
+					let mut na = [Some(Some("pc")), Some(Some("pf")), Some(Some("pm")), Some(Some("pp"))]; na[level] = Some(Some(*old));
+					let mut nb = na; nb[level] = Some(Some(*new));
+					let a = one_entry_target(na[0], na[1], na[2], na[3], [None; 5]);
+					let b = one_entry_target(nb[0], nb[1], nb[2], nb[3], [None; 5]);
+					run.pair_case("pair-blank", &a, &b, true);
+					n += 1;
+				}
+			}
+		}
+		run.r.count_n("blank_pairs", n);
+		let mut n = 0u64;
+		let none5 = || [Act::None, Act::None, Act::None, Act::None, Act::None];
+		let some4 = || [Some(Act::None), Some(Act::None), Some(Act::None), Some(Act::None)];
+		let bl: Vec<S> = BLANKS.iter().map(|s| cps_str(s)).chain([cps_str("x")]).collect();
+		for level in 1..5 {
+			let mut acts: Vec<Act> = vec![];
+			for v in &bl { acts.push(Act::Add(v.clone())); acts.push(Act::Rem(v.clone())); }
+			for (i, v) in bl.iter().enumerate() { for (j, w) in bl.iter().enumerate() { if ctx.thorough || (i + j + level) % 2 == 0 || i == j { acts.push(Act::Edit(v.clone(), w.clone())); } } }
+			for act in acts {
+				let mut dd = none5(); dd[level] = act;
+				run.print_case("text-blank", &one_entry_diff(some4(), dd));
+				n += 1;
+			}
+		}
+		let nl: Vec<S> = nvals.iter().map(|s| cps_str(s)).collect();
+		for level in 0..4 {
+			let mut acts: Vec<Act> = vec![];
+			for v in &nl { acts.push(Act::Add(v.clone())); acts.push(Act::Rem(v.clone())); }
+			for (i, v) in nl.iter().enumerate() { for (j, w) in nl.iter().enumerate() { if ctx.thorough || (i + j + level) % 2 == 0 { acts.push(Act::Edit(v.clone(), w.clone())); } } }
+			for act in acts {
+				let mut da = some4(); da[level] = Some(act);
+				run.print_case("text-blank", &one_entry_diff(da, none5()));
+				n += 1;
+			}
+		}
+		run.r.count_n("blank_text_diffs", n);
+	}
+
 	// 2. pairs (A,B)
 	let npairs = if ctx.thorough { 3000 } else { 260 };
 	let base_cfg = |mc: usize| { let mut g = GenCfg::new(2); g.max_classes = mc; g.absent_12 = 0; g };
@@ -813,18 +913,21 @@ pub fn run(ctx: &Ctx) -> anyhow::Result<Report> {
 	// 3. arbitrary diffs against arbitrary targets
 	let narb = if ctx.thorough { 4000 } else { 340 };
 	for i in 0..narb {
-		let n = if i % 5 == 4 { 3 } else { 2 };
+		// 2 namespaces mostly; 3, 4 and the degenerate single-namespace set (apply_to is generic in N)
+		let n = if i % 20 == 9 { 4 } else if i % 20 == 15 { 1 } else if i % 5 == 4 { 3 } else { 2 };
+		run.r.count(&format!("apply_target_namespaces_{n}"));
 		let mut g = GenCfg::new(n); g.max_classes = if i % 4 == 0 { 4 } else { 2 }; g.absent_12 = 3;
 		let t = gen_mappings(&mut rng, &g);
 		let (stream, tns, fault) = match i % 8 {
+			_ if n == 1 => ("arbitrary-first-namespace", 0, 0),
 			0..=2 => ("arbitrary-consistent", n - 1, 0),
 			3 => ("arbitrary-consistent", 1, 0),
 			4 | 5 => ("arbitrary-fault", 1, 25),
-			6 => ("arbitrary-fault", n - 1, 120),
+			6 => ("arbitrary-fault", if n == 4 { 2 } else { n - 1 }, 120),
 			_ => ("arbitrary-first-namespace", 0, 0),
 		};
-		let mut d = gen_diff_for(&mut rng, &t, if tns == 0 { 1 } else { tns }, fault);
-		if tns == 0 && i % 16 == 7 {
+		let mut d = gen_diff_for(&mut rng, &t, if tns == 0 && n > 1 { 1 } else { tns }, fault);
+		if tns == 0 && (i % 16 == 7 || (n == 1 && i % 40 == 15)) {
 			// only comment actions and untouched names: consistent with the first namespace as target
 			d.info = Act::None;
 			for c in &mut d.classes { c.info = Act::None; for f in &mut c.fields { f.info = Act::None; } for m in &mut c.methods { m.info = Act::None; for p in &mut m.params { p.info = Act::None; } } }
@@ -844,7 +947,8 @@ pub fn run(ctx: &Ctx) -> anyhow::Result<Report> {
 		// untouched entries: a class the diff does not mention is identical afterwards (checked by the reference as well)
 		if let Some(got) = &got {
 			for c in &t.classes {
-				if !d.classes.iter().any(|dc| Some(&dc.name) == c.names[0].as_ref()) && !got.classes.contains(c) {
+				let one = |c: &MClass| MMappings { ns: vec![], doc: None, classes: vec![c.clone()] }.canon();
+				if !d.classes.iter().any(|dc| Some(&dc.name) == c.names[0].as_ref()) && !got.classes.iter().any(|g| one(g) == one(c)) {
 					run.r.violation("a class the diff does not mention changed".into(), format!("{}{}{}", show_diff(&d), show_mappings(&t), show_mappings(got)));
 				}
 			}
@@ -855,15 +959,26 @@ pub fn run(ctx: &Ctx) -> anyhow::Result<Report> {
 
 	// 4. text: fixtures, printed diffs, mutations
 	let mut texts: Vec<S> = vec![];
+	// the repository's own .tinydiff files (VERIF_REPO at run time); a missing / renamed fixture is a note, not a failure
+	let repo = std::env::var("VERIF_REPO").unwrap_or_else(|_| "/repo".into());
+	let mut nfix = 0;
 	for f in ["1.2~server-0.2#1.1~server-0.1", "1.3#1.4~server-0.4", "1.3#1.2~server-0.2", "1.4~server-0.4#1.5"] {
-		if let Ok(s) = std::fs::read_to_string(format!("/repo/tests/version-graph/graph/{f}.tinydiff")) { texts.push(cps_str(&s)); run.r.count("fixture_texts"); }
+		let path = format!("{repo}/tests/version-graph/graph/{f}.tinydiff");
+		match std::fs::read_to_string(&path) {
+			Ok(s) => { texts.push(cps_str(&s)); nfix += 1; run.r.count("fixture_texts"); }
+			Err(e) => run.r.notes.push(format!("fixture {path} not readable ({e}): skipped")),
+		}
 	}
 	for t in ["", "tiny\t2\t0", "tiny\t2\t0\n", "tiny\t2\t1\n", "tiny\t2\t0\t\n", "\ttiny\t2\t0\n", "tiny\t2\n", "tiny\t2\t0\r\nc\ta\tb\tc\r\n", "tiny\t2\t0\nc\n", "tiny\t2\t0\nc\t\n", "tiny\t2\t0\nc\ta\tx\tx\n", "tiny\t2\t0\nc\ta\tx\ty\tz\n",
 		"tiny\t2\t0\nc\ta\n\tm\t()V\tm\n\t\tp\t+1\t\tx\n\t\tp\t01\t\tx\n", "tiny\t2\t0\nc\ta\n\tm\t()V\tm\n\t\tp\t18446744073709551615\t\tx\n\t\tp\t18446744073709551616\t\tx\n", "tiny\t2\t0\nc\ta\n\tm\t()V\tm\n\t\tp\t-1\t\tx\n",
 		"tiny\t2\t0\nc\ta\n\tm\t()V\tm\n\t\tp\t1\tsrc\tx\n", "tiny\t2\t0\nc\ta\n\tm\t()V\tm\n\t\tp\t\t\tx\n", "tiny\t2\t0\nc\ta\n\tm\t()V\tm\n\t\tp\t1\n", "tiny\t2\t0\nc\ta\n\tc\n\tc\n", "tiny\t2\t0\nc\ta\n\tc\t\\\\n\\t\\r\\x\\\t\\n\n",
 		"tiny\t2\t0\nc\ta\n\n\tc\tx\n", "tiny\t2\t0\nc\ta\n\t\tc\tx\n", "tiny\t2\t0\nx\n\tc\tx\n", "tiny\t2\t0\nc\t[a\n", "tiny\t2\t0\nc\ta\t[b\n", "tiny\t2\t0\nc\ta/\n", "tiny\t2\t0\nc\ta\n\tf\tI\n", "tiny\t2\t0\nc\ta\n\tf\tI\ta.b\n",
 		"tiny\t2\t0\nc\ta\n\tm\t()V\t<init>\t<x>\n", "tiny\t2\t0\nc\ta\n\tm\t()V\t<init>\t\t<clinit>\n", "tiny\t2\t0\nc\ta\nc\ta\n", "tiny\t2\t0\nc\ta\n\tf\tI\tx\n\tf\tI\tx\n", "tiny\t2\t0\nc\ta\n\tf\tI\tx\n\tf\tJ\tx\n", "tiny\t2\t0\nc\ta\n\tf\t\tx\n",
-		"tiny\t2\t0\nc\ta\n\tm\t()V\tm\n\t\tp\t1\t\tx\n\t\tp\t1\t\ty\n", "tiny\t2\t0\nc\ta\n\tm\t()V\tm\n\t\tp\t1\t\tx\n\t\t\tc\tdoc\n\t\t\tq\n\t\tc\tmdoc\n", " tiny\t2\t0\n", "tiny\t2\t0\n c\ta\n", "tiny\t2\t0\nc\ta\r"] {
+		"tiny\t2\t0\nc\ta\n\tm\t()V\tm\n\t\tp\t1\t\tx\n\t\tp\t1\t\ty\n", "tiny\t2\t0\nc\ta\n\tm\t()V\tm\n\t\tp\t1\t\tx\n\t\t\tc\tdoc\n\t\t\tq\n\t\tc\tmdoc\n", " tiny\t2\t0\n", "tiny\t2\t0\n c\ta\n", "tiny\t2\t0\nc\ta\r",
+		// blank cells are values, not absent cells
+		"tiny\t2\t0\nc\ta\n\tc\t \n", "tiny\t2\t0\nc\ta\n\tc\t\t \n", "tiny\t2\t0\nc\ta\n\tc\t \t \n", "tiny\t2\t0\nc\ta\n\tc\t \tw\n", "tiny\t2\t0\nc\ta\n\tc\tx\t \n", "tiny\t2\t0\nc\ta\n\tc\t \t  \n",
+		"tiny\t2\t0\nc\ta\n\tc\t\u{a0}\n", "tiny\t2\t0\nc\ta\n\tc\t\t\u{3000}\n", "tiny\t2\t0\nc\ta\t \n", "tiny\t2\t0\nc\ta\t\t \n", "tiny\t2\t0\nc\ta\t \t \n", "tiny\t2\t0\nc\t \n", "tiny\t2\t0\nc\ta\n\tf\tI\t \t\t  \n\t\tc\t\t \n",
+		"tiny\t2\t0\nc\ta\n\tm\t()V\tm\t \n\t\tp\t0\t\t \tq\n\t\t\tc\t \t\n\t\tc\t \n", "tiny\t2\t0\nc\ta\n\tm\t()V\tm\n\t\tp\t0\t \tq\n", "tiny\t2\t0\nc\ta\n\tm\t()V\tm\n\t\tp\t 0\t\tq\n", "tiny\t2\t0 \n", "tiny\t2\t0\nc \ta\n"] {
 		texts.push(cps_str(t));
 	}
 	for t in texts.clone() { run.read_case("text-fixed", &t, true); }
@@ -872,7 +987,7 @@ pub fn run(ctx: &Ctx) -> anyhow::Result<Report> {
 		let mut g = GenCfg::new(2); g.max_classes = 2; g.absent_12 = 2;
 		let t = gen_mappings(&mut rng, &g);
 		let d = gen_diff_for(&mut rng, &t, 1, 0);
-		let mut txt = if i % 4 == 0 { texts[rng.below(4.min(texts.len()))].clone() } else { print_tinydiff(&d) };
+		let mut txt = if i % 4 == 0 && nfix > 0 { texts[rng.below(nfix)].clone() } else { print_tinydiff(&d) };
 		for _ in 0..rng.range(1, 2) { mutate_text(&mut rng, &mut txt); }
 		if utf8(&txt).is_none() { continue; }
 		run.read_case("text-mutated", &txt, true);
